@@ -224,7 +224,7 @@ int main(int argc, char** argv) {
     { auto bd = parser.parseString(schedgen::base_deck() + "END\n"); g_es = std::make_unique<EclipseState>(bd); }
     auto deep = schedgen::deep_alphabet(); auto broad = schedgen::broad_alphabet();
     const int deep_depth = run.thorough() ? 4 : 3;
-    run.rule = "objects: every Schedule reached by histories over the C03 deep alphabet up to depth " + std::to_string(deep_depth) + " and by prelude T a T b over all ordered pairs of the broad alphabet (every SCHEDULE handler keyword); EclipseState + SummaryConfig of the model deck in 4 unit keywords x feature switches; SummaryState/UDQState/Action::State/WellTestState reached by all update sequences up to length " + std::to_string(run.thorough() ? 4 : 3) + "; RestartValue for all 32 feature subsets; TableManager of 60 table families one at a time and in ordered pairs (PLYSHLOG/ROCKTAB are split and merged by hand in serializeOp), each also compared with a twin built from the same deck; invariant per object: pack() sizes its buffer for exactly the bytes it writes and leaves the packed object canonically unchanged, unpack consumes the packed size, canon equal (all serialized members), operator==, public query sweep equal, re-pack same length; Schedules additionally: applying ACTIONX A1 to original and copy gives equal schedules; states = Schedules checked, transitions = future checks";
+    run.rule = "objects: every Schedule reached by histories over the C03 deep alphabet up to depth " + std::to_string(deep_depth) + " and by prelude T a T b over all ordered pairs of the broad alphabet (every SCHEDULE handler keyword); EclipseState + SummaryConfig of the model deck in 4 unit keywords x feature switches; SummaryState/UDQState/Action::State/WellTestState reached by all update sequences up to length " + std::to_string(run.thorough() ? 4 : 3) + "; RestartValue for all 32 feature subsets; Schedules and SummaryStates with START in 12 years around the time-representation boundaries (1901/1970/2038/2106/2262); TableManager of 60 table families one at a time and in ordered pairs (PLYSHLOG/ROCKTAB are split and merged by hand in serializeOp), each also compared with a twin built from the same deck; invariant per object: pack() sizes its buffer for exactly the bytes it writes and leaves the packed object canonically unchanged, unpack consumes the packed size, canon equal (all serialized members), operator==, public query sweep equal, re-pack same length; Schedules additionally: applying ACTIONX A1 to original and copy gives equal schedules; states = Schedules checked, transitions = future checks";
     run.assumptions = {"EclipseState grid and field properties excluded as the statement says", "canon() normalisations (UnitSystem cache, DeckItem raw/SI flag, KeywordLocation)", "byte identity of the re-packed buffer is reported, not required (statement: same length and meaning)"};
 
     std::string only;                                          // replay of one ES / TM case: the enumeration below runs with this filter
@@ -232,7 +232,7 @@ int main(int argc, char** argv) {
         std::istringstream ss(run.replay_path); std::string regime; ss >> regime; std::vector<int> h; int x; while (ss >> x) h.push_back(x);
         if (regime == "deep") { g_alpha = &deep; g_prelude = ""; check_schedule(regime, h); }
         else if (regime == "broad") { g_alpha = &broad; g_prelude = schedgen::prelude_wells(); check_schedule(regime, h); }
-        else if (regime == "TM" || regime == "ES") { run.nshards = 1; run.shard = 0; only = run.replay_path; }
+        else if (regime == "TM" || regime == "ES" || regime == "CAL") { run.nshards = 1; run.shard = 0; only = run.replay_path; }
         else { run.nshards = 1; dynamic_states(true); }
         if (only.empty()) return run.finish();
     }
@@ -262,6 +262,35 @@ int main(int argc, char** argv) {
                 roundtrip("EclipseState", es, [] { return std::make_unique<EclipseState>(); }, [](const EclipseState& e) { std::string o = e.getTitle() + "|" + vf::canon(e.getDeckUnitSystem()) + "|" + vf::canon(e.runspec().phases().size()) + "|" + std::to_string(e.getTableManager().getPvtwTable().size()) + "|" + std::to_string(e.getTableManager().getSwofTables().size()) + "|" + std::to_string(e.getFaults().size()) + "|" + std::to_string(e.gridDims().getCartesianSize()) + "|" + (e.runspec().endpointScaling() ? "E" : "-") + "|" + std::to_string(e.getTableManager().getDensityTable().size()) + "|" + vf::canon(e.getSimulationConfig().hasDISGAS()) + "|" + vf::canon(e.getTableManager().getEqldims().getNumEquilRegions()); return o; }, cs);
                 roundtrip("SummaryConfig", sc, [] { return std::make_unique<SummaryConfig>(); }, [](const SummaryConfig& c) { std::string o = std::to_string(c.size()) + ":"; for (const auto& n : c) o += n.keyword() + "/" + n.namedEntity() + "/" + std::to_string(n.number()) + ","; for (auto k : {"FOPR", "WOPR", "BPR", "XXXX"}) o += c.hasKeyword(k) ? "1" : "0"; return o; }, cs);
             } catch (const std::exception& e) { run.count("model_variants_rejected"); if (run.shard == 0) run.notes["model_reject"] = std::string(e.what()).substr(0, 200); }
+        }
+    }
+    // calendar: the same histories with START in years on both sides of every representable-time boundary a packer could have
+    // (1901/1902: -2^31 s, 1970: epoch, 2038: 2^31 s, 2106: 2^32 s, 2262: 2^63 ns); 14 monthly steps cross a year boundary
+    {
+        const int years[] = {1900, 1901, 1969, 1970, 2020, 2037, 2038, 2105, 2106, 2261, 2262, 2500};
+        g_alpha = &broad; g_prelude = schedgen::prelude_wells();
+        for (int y : years) for (int variant = 0; variant < 2; ++variant) {
+            const std::string cs = "CAL " + std::to_string(y) + " " + std::to_string(variant);
+            if (!only.empty() && cs != only) continue;
+            if (!run.mine()) continue;
+            run.current(cs);
+            std::vector<int> h(14, 0); h.push_back(variant == 0 ? 3 : 7); h.push_back(0);
+            std::string t = schedgen::render(broad, h, "METRIC", g_prelude);
+            for (size_t p2 = 0; (p2 = t.find(" 2021 /", p2)) != std::string::npos; p2 += 5) t.replace(p2, 7, " Y1 /");
+            for (size_t p2 = 0; (p2 = t.find(" 2020 /", p2)) != std::string::npos; p2 += 5) t.replace(p2, 7, " Y0 /");
+            for (size_t p2 = 0; (p2 = t.find(" Y1 /", p2)) != std::string::npos; p2 += 5) t.replace(p2, 5, " " + std::to_string(y + 1) + " /");
+            for (size_t p2 = 0; (p2 = t.find(" Y0 /", p2)) != std::string::npos; p2 += 5) t.replace(p2, 5, " " + std::to_string(y) + " /");
+            try {
+                auto deck = parser.parseString(t);
+                EclipseState es(deck);
+                auto x = std::make_unique<Schedule>(deck, es, g_python);
+                const auto t_last = TimeService::to_time_t((*x)[x->size() - 1].start_time());
+                if (x->size() != 16) { run.violation("C11:harness:calendar", "calendar deck has " + std::to_string(x->size()) + " states", "{\"case\": " + vf::jstr(cs) + "}"); continue; }
+                roundtrip("Schedule", *x, [] { return std::make_unique<Schedule>(g_python); }, [](const Schedule& sc) { std::string o = sched_obs(sc); for (size_t k = 0; k < sc.size(); ++k) o += " t" + std::to_string(TimeService::to_time_t(sc[k].start_time())) + ":" + vf::fmt17(sc.seconds(k)); o += " start" + std::to_string(sc.getStartTime()); return o; }, cs);
+                SummaryState st(TimeService::from_time_t(t_last), 0.0); st.update("FOPR", 1.5); st.update_elapsed(86400.0);
+                roundtrip("SummaryState", st, [] { return std::make_unique<SummaryState>(TimeService::from_time_t(0), 0.0); }, [](const SummaryState& q) { return vf::canon(q.get_elapsed()) + (q.has("FOPR") ? vf::fmt17(q.get("FOPR")) : "-"); }, cs);
+                run.count("calendar_cases");
+            } catch (const std::exception& e) { run.count("calendar_decks_rejected"); run.notes["calendar_reject_" + std::to_string(y)] = std::string(e.what()).substr(0, 160); }
         }
     }
     // TableManager: one table family at a time and every ordered pair of families (serializeOp splits/merges the
